@@ -1,17 +1,19 @@
 from props import LEAN_TB, CORR_TB, TRANS_TB
 
 PROP = dict(
-    lean=["Tcell.Props.C01"], namespaces=["Tcell.Props.C01"], engines=["draw"], classes=["display-", "cursor-", "wide-not-two-columns", "ref-unavailable"],
+    lean=["Tcell.Props.C01", "Tcell.Props.C01B"], namespaces=["Tcell.Props.C01", "Tcell.Props.C01B", "Tcell.LayerB"], engines=["draw"], classes=["display-", "cursor-", "wide-not-two-columns", "ref-unavailable"],
     trusted_base=[LEAN_TB, CORR_TB, TRANS_TB,
                   "Layer A: abstract terminal Tcell.ATerm (deferred wrap, two-column glyphs, clobbering rules) as the meaning of the draw path's abstract commands",
-                  "Layer B (bytes -> abstract commands) is validated, not proved: byte-exact correspondence of the rendered model with the implementation, and the Lean ECMA-48 reference emulator judging the implementation's own bytes",
+                  "Layer B (bytes -> abstract commands): PROVED as a simulation (Props/C01B, Lemmas/LayerB*): Rep(emulator, ATerm) is preserved by feeding Render.renderAll of every command list of every history (sim_all, draw_admits, rep_reach), for all positions, runes (UTF-8, wide, combining), sizes; relative to CapsFx = the effect on the Lean ECMA-48 emulator of the bytes of each command kind. For the class XtermLike (22 DB entries, db_xtermlike) CapsFx is proved for cursor addressing (all positions), cursor hiding, sgr0 (7 forms), the whole style block for styles without colours/underline (xl_setPen_attrs_effect), each single attribute/underline/reset string and the closed forms of every parameterised expansion for all parameter values; the assembly of colours and underline inside setPen and of the showCursor / clear byte strings into their effect is still validated only (byte-exact correspondence + the reference emulator judging the implementation's own bytes)",
+                  "Layer B starts from an emulator state with the parser in ground state (the bytes of Init/engage are validated by C04, not part of the theorem)",
                   "go-runewidth as regenerated table; encodeRune payload as a parameter (UTF-8 instance)"],
     assumptions=["styles passed by the application do not carry the internal AttrInvalid bit", "Fill is used with width-1 runes",
                  "the four corner-trick entries (beterm, cygwin, sun, sun-color) are covered by the correspondence and the emulator oracle only",
-                 "StyleDefault cells are resolved with the screen style in force when they were painted"],
+                 "StyleDefault cells are resolved with the screen style in force when they were painted",
+                 "Layer B domain (OpB, CfgB): no hyperlink in styles, no cursor-colour request, combining runes zero-width non-control scalars, window sizes non-negative Go ints, UTF-8 locale, a hide-cursor string; rune widths outside int32 taken as 0 (rwClip)"],
 )
 META = dict(
     technique="Lean 4 proof of a cross-Show invariant over all draw histories on an abstract terminal (Layer A) + byte-exact model/implementation correspondence + reference ECMA-48 emulator (Lean) judging the implementation's bytes",
-    text="Theorems show_faithful/sync_faithful/resize_faithful (partial: Layer A, entries without the bottom-right insert-character trick) prove for every history, size, rune and style that after Show/Sync/resize every unlocked cell of the abstract terminal shows what the application last set, with the cursor where requested. The model is tied to tscreen.go by comparing the bytes of every Show; the oracle replays the implementation's bytes into the Lean ECMA-48 emulator and compares its grid with a shadow of the application's calls.",
-    note="Trusted: Lean kernel, ATerm conventions, the emulator as the meaning of 'standards-conforming terminal', sampled correspondence. Layer B is not a theorem.",
+    text="Theorems show_faithful/sync_faithful/resize_faithful (partial: Layer A, entries without the bottom-right insert-character trick) prove for every history, size, rune and style that after Show/Sync/resize every unlocked cell of the abstract terminal shows what the application last set, with the cursor where requested. Layer B (show_faithful_bytes_partial, sync_faithful_bytes_partial, output_wellformed_partial) transports this to the byte-level Lean ECMA-48 emulator fed with exactly the bytes the model renders: its grid shows the payload and the SGR state penOf(style) in every unlocked visited cell, relative to the per-command-kind effect hypotheses CapsFx (partly proved for the 22 XtermLike entries). The model is tied to tscreen.go by comparing the bytes of every Show; the oracle replays the implementation's bytes into the Lean ECMA-48 emulator and compares its grid with a shadow of the application's calls.",
+    note="Trusted: Lean kernel, the emulator as the meaning of 'standards-conforming terminal', sampled correspondence. Layer B is a theorem modulo CapsFx.pen/show_/clear (assembly of the style block), hyperlinks and cursor colours.",
 )
